@@ -51,6 +51,8 @@ pub fn instr_read_var(
     let value = runtime_data
         .global_vars
         .get(varid as usize)
+        .copied()
+        .flatten()
         .ok_or_else(|| {
             ExecutionErrorPayload::VarNotFound(
                 program
@@ -63,7 +65,7 @@ pub fn instr_read_var(
         })?;
     runtime_data
         .value_stack
-        .push(*value)
+        .push(value)
         .map_err(|_| ExecutionErrorPayload::Stackoverflow)?;
     Ok(())
 }
@@ -77,9 +79,9 @@ pub fn instr_set_var(
     let scalar = runtime_data.value_stack.pop();
     let varid = varname.0 as usize;
     if runtime_data.global_vars.len() <= varid {
-        runtime_data.global_vars.resize(varid + 1, Value::Nil);
+        runtime_data.global_vars.resize(varid + 1, None);
     }
-    runtime_data.global_vars[varid] = scalar;
+    runtime_data.global_vars[varid] = Some(scalar);
     Ok(())
 }
 
